@@ -24,6 +24,9 @@ ASSUMPTIONS = [
     "integers are small, all arithmetic is on ints; strings appear only as labels and thrown values",
     "interpreter-raised error values are opaque: a comparison that would need their text is skipped and counted",
     "parameter defaults are evaluated at call time in the defining scope (observed, undocumented)",
+    "a continue (after count decrement) that surfaces while a for clause's iterated expression, guard or declaration is being "
+    "evaluated is not absorbed by that for at all, whichever clause it is in: it continues the loop enclosing the whole for "
+    "(observed; the documentation does not cover loop exits placed in clause expressions)",
     "model step budget 3000, implementation fuel 10^6",
 ]
 
